@@ -277,15 +277,21 @@ inductive Kind
   | array           -- Array / MultiValue / JoinedString: members are direct children
   deriving DecidableEq, Repr, Inhabited
 
-inductive Node | mk (kind : Kind) (name : Str) (kids : List Node)
+/-- `key` is the key under which a Mapping holds the element (`dict` key), `name` the element's
+    own `.name`.  `Mapping._reset`/`set` always store a field under its name, but a SparseDict
+    item assignment can store an instance of a renamed subclass of the field schema under the
+    field's key (KF-C10-a), so the two are kept apart: `find` looks up keys, `fq_name` prints
+    names.  For members of sequences and for the root the key is not used. -/
+inductive Node | mk (kind : Kind) (key : Str) (name : Str) (kids : List Node)
   deriving Repr, Inhabited
 
-def Node.kind : Node → Kind | .mk k _ _ => k
-def Node.name : Node → Str | .mk _ n _ => n
-def Node.kids : Node → List Node | .mk _ _ k => k
+def Node.kind : Node → Kind | .mk k _ _ _ => k
+def Node.key : Node → Str | .mk _ k _ _ => k
+def Node.name : Node → Str | .mk _ _ n _ => n
+def Node.kids : Node → List Node | .mk _ _ _ k => k
 
 mutual
-def Node.size : Node → Nat | .mk _ _ k => 1 + sizeL k
+def Node.size : Node → Nat | .mk _ _ _ k => 1 + sizeL k
 def sizeL : List Node → Nat | [] => 0 | t :: ts => t.size + sizeL ts
 end
 
@@ -293,7 +299,7 @@ abbrev Pos := List Nat
 
 def Node.get? : Node → Pos → Option Node
   | n, [] => some n
-  | .mk _ _ kids, i :: p =>
+  | .mk _ _ _ kids, i :: p =>
     match kids[i]? with
     | some k => k.get? p
     | none => none
@@ -307,7 +313,7 @@ def kidsAt (root : Node) (el : Pos) : List Node :=
 /-- `dict.__getitem__` on the field mapping: position of the child stored under key `s` -/
 def findName (s : Str) : List Node → Option Nat
   | [] => none
-  | k :: r => if k.name == s then some 0 else (findName s r).map (· + 1)
+  | k :: r => if k.key == s then some 0 else (findName s r).map (· + 1)
 
 /-- `list.__getitem__(i)` for an int `i`: `none` = `IndexError` -/
 def pyListIndex (n : Nat) (i : Int) : Option Nat :=
@@ -396,7 +402,7 @@ theorem pySlice_length_le (n : Nat) (a b c : Option Int) : (pySlice n a b c).len
 mutual
 theorem get?_size_le : ∀ (root : Node) (p : Pos) (n : Node), root.get? p = some n → n.size ≤ root.size
   | root, [], n, h => by simp [Node.get?] at h; subst h; exact Nat.le_refl _
-  | .mk k nm kids, i :: p, n, h => by
+  | .mk k ky nm kids, i :: p, n, h => by
     simp only [Node.get?] at h
     have := getL?_size_le kids i p n h
     simp only [Node.size]; omega
@@ -417,14 +423,14 @@ theorem length_le_sizeL : ∀ kids : List Node, kids.length ≤ sizeL kids
   | [] => by simp [sizeL]
   | k :: ks => by
     have := length_le_sizeL ks
-    cases k with | mk a b c => simp only [sizeL, Node.size, List.length_cons]; omega
+    cases k with | mk a k b c => simp only [sizeL, Node.size, List.length_cons]; omega
 
 theorem kidsAt_length_le (root : Node) (el : Pos) : (kidsAt root el).length ≤ root.size := by
   unfold kidsAt
   split
   · next n h =>
     have h1 := get?_size_le root el n h
-    cases n with | mk a b c =>
+    cases n with | mk a k b c =>
     have h2 := length_le_sizeL c
     simp only [Node.size, Node.kids] at *; omega
   · simp
@@ -555,7 +561,7 @@ inductive ChainEl
 
 def chain : Node → Pos → List ChainEl
   | _, [] => []
-  | .mk k _ kids, i :: p =>
+  | .mk k _ _ kids, i :: p =>
     match kids[i]? with
     | none => []
     | some c =>
